@@ -104,6 +104,33 @@ func tierOf(v ssa.Value) string {
 			}
 		}
 	}
+	// a tier handed back by a same-package helper (`h.sharedTier()`): what the helper returns
+	for i := 0; i < len(roots) && i < 48; i++ {
+		if roots[i].Kind != "call" || strings.Contains(roots[i].Desc, "getCacheForKey") {
+			continue
+		}
+		var c *ssa.Call
+		idx := 0
+		switch x := roots[i].V.(type) {
+		case *ssa.Call:
+			c = x
+		case *ssa.Extract:
+			c, _ = x.Tuple.(*ssa.Call)
+			idx = x.Index
+		}
+		if c == nil {
+			continue
+		}
+		h := c.Common().StaticCallee()
+		if h == nil || len(h.Blocks) == 0 || h.Pkg == nil || rel(h.Pkg.Pkg.Path()) != hybPkg {
+			continue
+		}
+		for _, ret := range Returns(h) {
+			if idx < len(ret.Results) {
+				roots = append(roots, Origins(RetVal(ret, idx))...)
+			}
+		}
+	}
 	for _, rt := range roots {
 		switch {
 		case rt.Kind == "field" && strings.HasPrefix(rt.Desc, "Storage.cache("):
@@ -152,6 +179,80 @@ func evalTierTable(p *Prog, f *ssa.Function, consts map[int64]string, fixed map[
 	if f == nil || len(f.Blocks) == 0 || depth > 3 {
 		return
 	}
+	// one evaluation per category: with a single category every branch on the category is decided,
+	// so a tier or a flag chosen by a `switch category` into a local variable (a phi) resolves to the
+	// one value that reaches it. The order counter restarts from the same base for each category so
+	// that the orders of the operations of one category stay comparable.
+	var cats []string
+	for _, n := range hybCategories {
+		if fixed == nil || fixed[n] {
+			cats = append(cats, n)
+		}
+	}
+	base, maxOrder := *orderBase, *orderBase
+	for _, c := range cats {
+		*orderBase = base
+		evalTierOne(p, f, consts, map[string]bool{c: true}, depth, async, out, orderBase)
+		if *orderBase > maxOrder {
+			maxOrder = *orderBase
+		}
+	}
+	*orderBase = maxOrder
+}
+
+// liveEdges is the set of CFG edges (pred block, successor index) that one evaluation found
+// reachable; used to resolve phis to the values that can actually arrive.
+type liveEdges map[*ssa.BasicBlock]map[int]bool
+
+// resolveLive follows v through phis, keeping only the edges that are live; returns the single
+// value that can arrive, or v itself when several can.
+func resolveLive(v ssa.Value, live liveEdges, depth int) ssa.Value {
+	if depth > 6 || live == nil {
+		return v
+	}
+	sv := stripValue(v)
+	ph, ok := sv.(*ssa.Phi)
+	if !ok {
+		return v
+	}
+	var vals []ssa.Value
+	for i, e := range ph.Edges {
+		pred := ph.Block().Preds[i]
+		alive := false
+		for si, sb := range pred.Succs {
+			if sb == ph.Block() && live[pred][si] {
+				alive = true
+			}
+		}
+		if !alive {
+			continue
+		}
+		r := resolveLive(e, live, depth+1)
+		dup := false
+		for _, x := range vals {
+			if x == r {
+				dup = true
+			}
+			if cb1, ok1 := ConstBool(x); ok1 {
+				if cb2, ok2 := ConstBool(r); ok2 && cb1 == cb2 {
+					dup = true
+				}
+			}
+		}
+		if !dup {
+			vals = append(vals, r)
+		}
+	}
+	if len(vals) == 1 {
+		return vals[0]
+	}
+	return v
+}
+
+func evalTierOne(p *Prog, f *ssa.Function, consts map[int64]string, fixed map[string]bool, depth int, async bool, out map[string][]tierUse, orderBase *int) {
+	if f == nil || len(f.Blocks) == 0 || depth > 3 {
+		return
+	}
 	// which SSA values hold the category?
 	catVals := map[ssa.Value]bool{}
 	Instrs(f, func(in ssa.Instruction) {
@@ -165,8 +266,8 @@ func evalTierTable(p *Prog, f *ssa.Function, consts map[int64]string, fixed map[
 			all[n] = true
 		}
 	}
-	state := map[*ssa.BasicBlock]map[string]bool{f.Blocks[0]: all}
-	work := []*ssa.BasicBlock{f.Blocks[0]}
+	var live liveEdges
+	var state map[*ssa.BasicBlock]map[string]bool
 	isCat := func(v ssa.Value) bool {
 		v = stripValue(v)
 		if catVals[v] {
@@ -181,24 +282,45 @@ func evalTierTable(p *Prog, f *ssa.Function, consts map[int64]string, fixed map[
 		}
 		return false
 	}
-	for len(work) > 0 {
-		b := work[len(work)-1]
-		work = work[:len(work)-1]
-		cur := state[b]
-		succSets := make([]map[string]bool, len(b.Succs))
-		for i := range succSets {
-			succSets[i] = cur
-		}
-		if len(b.Instrs) > 0 {
-			if iff, ok := b.Instrs[len(b.Instrs)-1].(*ssa.If); ok {
-				// a configuration flag evaluated under an assumption (tierAssume): only the consistent
-				// successor is followed
-				if c0, pol := normCond(iff.Cond, true); len(tierAssume) > 0 {
-					if _, fld, _, isF := FieldOf(c0); isF {
-						if val, has := tierAssume[fld]; has {
-							taken := 0
-							if val != pol {
-								taken = 1
+	for round := 0; round < 4; round++ {
+		prev := live
+		live = liveEdges{}
+		state = map[*ssa.BasicBlock]map[string]bool{f.Blocks[0]: all}
+		work := []*ssa.BasicBlock{f.Blocks[0]}
+		for len(work) > 0 {
+			b := work[len(work)-1]
+			work = work[:len(work)-1]
+			cur := state[b]
+			succSets := make([]map[string]bool, len(b.Succs))
+			for i := range succSets {
+				succSets[i] = cur
+			}
+			if len(b.Instrs) > 0 {
+				if iff, ok := b.Instrs[len(b.Instrs)-1].(*ssa.If); ok {
+					// a configuration flag evaluated under an assumption (tierAssume): only the consistent
+					// successor is followed
+					if c0, pol := normCond(iff.Cond, true); len(tierAssume) > 0 {
+						if _, fld, _, isF := FieldOf(c0); isF {
+							if val, has := tierAssume[fld]; has {
+								taken := 0
+								if val != pol {
+									taken = 1
+								}
+								for i := range succSets {
+									if i != taken {
+										succSets[i] = map[string]bool{}
+									}
+								}
+							}
+						}
+					}
+					// a flag set per category (`inPersistent := false; switch category {... inPersistent = true}`)
+					// resolves, under one category, to the constant that reaches the test
+					if c0, pol := normCond(iff.Cond, true); prev != nil {
+						if cb, isC := ConstBool(resolveLive(c0, prev, 0)); isC {
+							taken := 1
+							if cb == pol {
+								taken = 0
 							}
 							for i := range succSets {
 								if i != taken {
@@ -207,46 +329,64 @@ func evalTierTable(p *Prog, f *ssa.Function, consts map[int64]string, fixed map[
 							}
 						}
 					}
-				}
-				if bo, ok := iff.Cond.(*ssa.BinOp); ok && (bo.Op == token.EQL || bo.Op == token.NEQ) && isCat(bo.X) {
-					if k, isC := ConstInt(bo.Y); isC {
-						name := consts[k]
-						eq, ne := map[string]bool{}, map[string]bool{}
-						for c := range cur {
-							if c == name {
-								eq[c] = true
-							} else {
-								ne[c] = true
+					if bo, ok := iff.Cond.(*ssa.BinOp); ok && (bo.Op == token.EQL || bo.Op == token.NEQ) && isCat(bo.X) {
+						if k, isC := ConstInt(bo.Y); isC {
+							name := consts[k]
+							eq, ne := map[string]bool{}, map[string]bool{}
+							for c := range cur {
+								if c == name {
+									eq[c] = true
+								} else {
+									ne[c] = true
+								}
 							}
-						}
-						if bo.Op == token.EQL {
-							succSets[0], succSets[1] = eq, ne
-						} else {
-							succSets[0], succSets[1] = ne, eq
+							if bo.Op == token.EQL {
+								succSets[0], succSets[1] = eq, ne
+							} else {
+								succSets[0], succSets[1] = ne, eq
+							}
 						}
 					}
 				}
 			}
-		}
-		for i, s := range b.Succs {
-			if len(succSets[i]) == 0 {
-				continue
-			}
-			old := state[s]
-			merged := map[string]bool{}
-			for k := range old {
-				merged[k] = true
-			}
-			changed := old == nil
-			for k := range succSets[i] {
-				if !merged[k] {
+			for i, s := range b.Succs {
+				if len(succSets[i]) == 0 {
+					continue
+				}
+				if live[b] == nil {
+					live[b] = map[int]bool{}
+				}
+				live[b][i] = true
+				old := state[s]
+				merged := map[string]bool{}
+				for k := range old {
 					merged[k] = true
-					changed = true
+				}
+				changed := old == nil
+				for k := range succSets[i] {
+					if !merged[k] {
+						merged[k] = true
+						changed = true
+					}
+				}
+				if changed {
+					state[s] = merged
+					work = append(work, s)
 				}
 			}
-			if changed {
-				state[s] = merged
-				work = append(work, s)
+		}
+		// refinement: stop when the set of live edges no longer shrinks
+		if prev != nil {
+			same := true
+			for b, m := range prev {
+				for i := range m {
+					if !live[b][i] {
+						same = false
+					}
+				}
+			}
+			if same {
+				break
 			}
 		}
 	}
@@ -276,11 +416,56 @@ func evalTierTable(p *Prog, f *ssa.Function, consts map[int64]string, fixed map[
 				evalTierTable(p, c.Fn, consts, cur, depth+1, async || isGo, out, orderBase)
 				continue
 			}
+			// a tier passed to a same-package function that operates on its parameter
+			// (`deleteFromTier(h.persistent, key, ...)`): the operations the callee invokes on that
+			// parameter are operations on the tier passed
+			if c.Fn != nil && c.Recv == "" && c.Fn.Pkg == f.Pkg && len(c.Fn.Blocks) > 0 {
+				for ai, a := range ci.Common().Args {
+					if ai >= len(c.Fn.Params) {
+						break
+					}
+					t := tierOf(resolveLive(a, live, 0))
+					if t == "" {
+						continue
+					}
+					if t == "local" || t == "sharedOnly" {
+						for _, ft := range Facts(b) {
+							if x, isnil, ok := ft.FactNil(); ok {
+								if _, fld, _, isF := FieldOf(x); isF && fld == "sharedCache" {
+									if (t == "local" && isnil) || (t == "sharedOnly" && !isnil) {
+										t = "keycache"
+									}
+								}
+							}
+						}
+					}
+					prm := c.Fn.Params[ai]
+					Instrs(c.Fn, func(hin ssa.Instruction) {
+						hc, ok := hin.(ssa.CallInstruction)
+						if !ok || !hc.Common().IsInvoke() || !sameRootParam(hc.Common().Value, prm) {
+							return
+						}
+						*orderBase++
+						for cat := range cur {
+							tc := t
+							if t == "selector" {
+								if cat == "Shared" {
+									tc = "keycache"
+								} else {
+									tc = "local"
+								}
+							}
+							out[cat] = append(out[cat], tierUse{tier: tc, method: hc.Common().Method.Name(), pos: CallPos(ci), async: async || isGo, order: *orderBase})
+						}
+					})
+				}
+				continue
+			}
 			rv := Recv(ci)
 			if rv == nil {
 				continue
 			}
-			t := tierOf(rv)
+			t := tierOf(resolveLive(rv, live, 0))
 			if t == "" {
 				continue
 			}
@@ -672,4 +857,14 @@ func packageStringSlice(p *Prog, pkg, name string) []string {
 		}
 	}
 	return out
+}
+
+// sameRootParam: v is the parameter p (possibly through an interface conversion).
+func sameRootParam(v ssa.Value, p *ssa.Parameter) bool {
+	for _, rt := range Origins(v) {
+		if rt.V == ssa.Value(p) {
+			return true
+		}
+	}
+	return false
 }
